@@ -61,7 +61,7 @@ theorem visit_ok (sc : Scripts) (tm : Nat) : ∀ (fuel : Nat) (w : World), Wheel
   | succ fuel ih =>
     intro w h h0 htm ⟨cop, rest, hl, hz⟩ hfuel
     unfold visit
-    simp only [hl]
+    simp only [hl, tie_nextDue]
     -- pop
     have hcum : cum 0 (w.slots tm) = (0, cop.c) :: cum 0 rest := by rw [hl]; exact cum_pop_zero _ _ hz
     have h1 : StepOK w (setSlot w tm rest) :=
@@ -171,7 +171,7 @@ theorem sweepSecond_eq (sc : Scripts) (w : World) :
       | h :: _ => if h.delta == 0 then visit sc (slotOf (w.cot + 1)) (((decHead w).slots (slotOf (w.cot + 1))).length) (decHead w)
                   else decHead w := by
   unfold sweepSecond decHead
-  simp only [tie_sweepOrder.1, tie_sweepOrder.2, if_true, tie_sweepSlot]
+  simp only [tie_sweepOrder.1, tie_sweepOrder.2, if_true, tie_sweepSlot, tie_headDue]
   cases hl : w.slots (slotOf (w.cot + 1)) with
   | nil => simp [hl]
   | cons h rest => simp [setSlot]
